@@ -80,6 +80,9 @@ pub fn sessions(tier: Tier) -> Vec<Sess> {
     // five-digit body length: one frame larger than FramedRead's initial 8 KiB buffer
     let big = format!("proc main() {{\n{}}}\n", "  printi(12345); // comment \u{20ac}\n".repeat(400));
     v.push(session_of("5-digit-length", &big, &[]));
+    // six-digit body length: a frame above 64 KiB (and 128 KiB)
+    let huge = format!("proc main() {{\n{}}}\n", "  printi(12345); // comment \u{20ac}\n".repeat(4200));
+    v.push(session_of("6-digit-length", &huge, &[("textDocument/foldingRange", json!({"textDocument": {"uri": URI}}))]));
     // many small frames
     {
         let mut s = Session::new(true);
@@ -158,8 +161,31 @@ pub fn run(tier: Tier) -> Report {
         };
         baselines.push((s.name, base.raw.clone()));
         let n = s.bytes.len();
-        // deviation 1: every two-way split
-        let mut cut_sets: Vec<Vec<usize>> = (1..n).map(|c| vec![c]).collect();
+        // deviation 1: every two-way split (the 6-digit session: every 1021st byte, the 40
+        // bytes around every frame boundary and around every multiple of 4 KiB)
+        let sparse = s.name == "6-digit-length";
+        let mut cut_sets: Vec<Vec<usize>> = if sparse {
+            let mut c: std::collections::BTreeSet<usize> = (1..n).step_by(1021).collect();
+            let mut i = 0;
+            while i < n {
+                let h = s.bytes[i..].windows(4).position(|w| w == b"\r\n\r\n").map(|p| i + p + 4).unwrap_or(n);
+                let hdr = String::from_utf8_lossy(&s.bytes[i..h]).to_string();
+                let len = hdr.split("\r\n").find_map(|l| l.strip_prefix("Content-Length:").and_then(|v| v.trim().parse::<usize>().ok())).unwrap_or(0);
+                for b in [i, h, h + len] {
+                    c.extend((b.saturating_sub(20)..b + 20).filter(|x| *x >= 1 && *x < n));
+                }
+                i = h + len;
+                if len == 0 && h >= n {
+                    break;
+                }
+            }
+            for k in (4096..n).step_by(4096) {
+                c.extend((k - 3..k + 3).filter(|x| *x < n));
+            }
+            c.into_iter().map(|x| vec![x]).collect()
+        } else {
+            (1..n).map(|c| vec![c]).collect()
+        };
         // deviation 2: three-way splits - all pairs for the minimal session, all pairs within a
         // 64-byte window (every 3rd start) otherwise; thorough: window 256 / all for sessions < 1500 bytes
         let all_pairs = s.name == "minimal" || (tier == Tier::Thorough && n < 1100);
@@ -167,7 +193,7 @@ pub fn run(tier: Tier) -> Report {
         let large = n > 5000;
         let window = if large { tier.pick(8, 16) } else { tier.pick(64, 128) };
         let stride = if all_pairs { 1 } else if large { tier.pick(16, 4) } else { tier.pick(3, 1) };
-        for a in (1..n).step_by(stride) {
+        for a in (1..if sparse { 1 } else { n }).step_by(stride) {
             let hi = if all_pairs { n } else { (a + window).min(n) };
             for b in a + 1..hi {
                 cut_sets.push(vec![a, b]);
